@@ -162,7 +162,8 @@ def build(sym, last, arg=None):
     raise core.HarnessError(sym)
 
 
-SYMS = ["pair:+2|+2", "pair:+3|+2", "pair:+1|+2", "pair:+50|+99", "+1", "+2", "+50", "+99", "same", "-1", "-5", "+100", "+150", "wrong-key", "other-adv-id-aad", "other-header-id", "foreign-id-consistent", "inner-mismatch", "inner-mismatch-old", "unknown-iid", "old:0", "old:1", "old:40", "old:98", "empty-payload", "neighbour:+1", "cross:from-neighbour", "db-swap", "+1:iid12", "+1:iid15"]
+FLOOD = 320
+SYMS = ["far:+120", "replay-rec", "pair:+2|+2", "pair:+3|+2", "pair:+1|+2", "pair:+50|+99", "+1", "+2", "+50", "+99", "same", "-1", "-5", "+100", "+150", "wrong-key", "other-adv-id-aad", "other-header-id", "foreign-id-consistent", "inner-mismatch", "inner-mismatch-old", "unknown-iid", "old:0", "old:1", "old:40", "old:98", "empty-payload", "neighbour:+1", "cross:from-neighbour", "db-swap", "+1:iid12", "+1:iid15"]
 
 
 def _utf8(b):
@@ -286,13 +287,39 @@ def step(rig: Rig, sym, arg=None):
         if rig.state() != before:
             return [("database-replacement-changes-state-number-or-notifies", {"before": before, "after": rig.state()})], True
         return [], True
+    if sym.startswith("far:"):
+        # a genuine broadcast far ahead of what this pairing has accepted (it missed a lot): kept, byte for byte, for `replay-rec`
+        b = build("+1", last + int(sym[5:]) - 1)
+        if b is None:
+            return [], False
+        rig.recorded = (b[1]["gsn"], b[0], b[1])
+    elif sym == "replay-rec":
+        # the bytes of that broadcast again (advertisements repeat; a scanner may hand over a cached one): judged like any other, at ITS state number
+        if getattr(rig, "recorded", None) is None:
+            return [], False
+        b = (rig.recorded[1], rig.recorded[2])
+    elif sym.startswith("flood:"):
+        # a long run of advertisements that cannot be this accessory's (a neighbourhood of other controllers' accessories re-using the address,
+        # a jammed channel: hundreds within seconds, every one different).  Each is judged; the pairing comes out of it as it went in.
+        out = []
+        before = rig.state()
+        for k in range(FLOOD):
+            fb = build("bitflip", last, k % 128) if sym == "flood:bitflips" else (adv_bytes(ADV_ID, seal(last + 1, last + 1, 11, struct.pack("<Q", k), key=WRONG_KEY)), None)
+            try:
+                rig.feed(fb[0], run=k % 50 == 49)
+            except Exception as e:  # noqa: BLE001
+                return [(f"scanner-callback-raises:{type(e).__name__}:{sym}", {"sym": sym, "nth": k, "err": str(e)[:160]})], True
+        rig.loop.run_until_idle()
+        if rig.state() != before:
+            out.append((f"notification-accepted-though-forged:{sym}", {"sym": sym, "before": before, "after": rig.state()}))
+        return out, True
     if sym == "cross:from-neighbour":
         # the neighbour's latest genuine payload, byte for byte, presented under THIS accessory's advertising identifier and address
         if not rig.neighbour_payloads:
             return [], False
         g, payload = rig.neighbour_payloads[-1]
         b = (adv_bytes(ADV_ID, payload), dict(authentic=False, gsn=g))
-    else:
+    elif not sym.startswith(("far:", "replay-rec")):
         b = build(sym, last, arg)
     if b is None:
         return [], False
@@ -341,6 +368,10 @@ def step(rig: Rig, sym, arg=None):
         rig.model_last = m["gsn"]
     if not accepted and sym == "+1":
         out.append(("genuine-next-notification-rejected", det))  # vacuity guard on the positive path
+    elif not accepted and legit and not undeliverable and m["gsn"] - last <= 99 and m["gsn"] <= 0xFFFF:
+        # ... and the rest of the positive path: authentic, inner counter right, 1..99 ahead of the last accepted one (the window the
+        # quantifier names, 'last+k (k<100)'), for a characteristic the database knows
+        out.append((f"genuine-notification-inside-the-window-rejected:{sym}", dict(det, gsn=m["gsn"], ahead_by=m["gsn"] - last)))
     return out, True
 
 
@@ -381,6 +412,13 @@ def disc_state(rig):
     return (getattr(d.description, "state_num", None), d.description is rig.pairing.description, _c.canon(rig.pairing, depth=1, skip=("controller", "_accessories_state", "pairing_data", "_pairing_data", "listeners", "availability_listeners", "config_changed_listeners", "device", "client", "description", "ble_advertisement", "_last_seen")))
 
 
+def pairing_state(rig):
+    """every scalar the pairing object holds (a memo of the last refused payload, a failure counter, ...): histories that differ here may have different futures"""
+    from vt import canon as _c
+
+    return _c.canon(rig.pairing, depth=1, skip=("controller", "_accessories_state", "pairing_data", "_pairing_data", "listeners", "availability_listeners", "config_changed_listeners", "device", "client", "description", "ble_advertisement", "_last_seen"))
+
+
 def durable(rig):
     """what a new process would start from (the cached copy of the pairing's state): two histories that differ only here have different futures after a restart"""
     st = getattr(rig.pairing, "_accessories_state", None)
@@ -395,13 +433,14 @@ def seen_iids(rig):
 def _bfs(item, seed, tier):
     """BFS over histories from one base state; prune on canonical state (state_num, log length parity is irrelevant: state_num only)."""
     acc = core.Acc()
-    base, depth, syms = item
+    base, depth, syms = item[:3]
+    first = item[3] if len(item) > 3 else None  # (the search split by first symbol, for parallelism: pruning is then per part)
     seen = {}
     frontier = [()]
     for d in range(depth):
         nxt = []
         for hist in frontier:
-            for sym in syms:
+            for sym in syms if d or first is None else [first]:
                 rig = Rig(base)
                 try:
                     ok = True
@@ -417,7 +456,7 @@ def _bfs(item, seed, tier):
                         acc.violation(sig, "history", {"base": base, "history": [list(x) for x in h2]}, detail)
                     acc.case(key=("h", base, h2), outcome="violation" if v else f"last={'moved' if rig.model_last != base else 'same'}", sample={"base": base, "history": [s for s, _ in h2]})
                     acc.traces += 1
-                    key = (rig.state()[0], rig.model_last, rig.state_b()[0], rig.model_last_b, len(rig.neighbour_payloads) > 0, rig.chars == CHARS, tuple(sorted(seen_iids(rig))), rig.has_discovery, id(rig.pairing) != rig.first_pairing_id, disc_state(rig), rig.floor, getattr(rig, "n_restarts", 0), durable(rig))
+                    key = (rig.state()[0], rig.model_last, rig.state_b()[0], rig.model_last_b, len(rig.neighbour_payloads) > 0, rig.chars == CHARS, tuple(sorted(seen_iids(rig))), rig.has_discovery, id(rig.pairing) != rig.first_pairing_id, disc_state(rig), rig.floor, getattr(rig, "n_restarts", 0), durable(rig), pairing_state(rig), getattr(rig, "recorded", (None,))[0])
                     if v or key in seen:
                         continue
                     seen[key] = h2
@@ -455,6 +494,11 @@ def run(ctx):
     # deeper on the symbols that carry state across steps (database replacement, the neighbour pairing, per-characteristic history)
     CARRY = ["+1", "+1:iid12", "+1:iid15", "db-swap", "neighbour:+1", "cross:from-neighbour", "same", "old:1", "unknown-iid", "regular-adv", "reload-pairing", "restart", "-1", "pair:+2|+2", "pair:+3|+2", "pair:+1|+1", "pair:+2|+3"]
     work += [(b, 4 if quick else 6, CARRY) for b in ([300] if quick else [1, 300, 65500])]
+    # broadcasts the pairing has to refuse now and may have to accept later (far ahead, then the window moves over them); long runs of forgeries
+    FAR = ["far:+120", "far:+150", "replay-rec", "+1", "+50", "+99", "same", "regular-adv", "wrong-key", "restart"]
+    work += [(b, 4 if quick else 5, FAR, f) for b in ([300] if quick else [1, 300, 65300]) for f in FAR if f != "replay-rec"]
+    FL = ["flood:wrong-key", "+1", "far:+120", "replay-rec"] if quick else ["flood:wrong-key", "flood:bitflips", "+1", "+50", "same", "far:+120", "replay-rec"]
+    work += [(b, 2 if quick else 3, FL, f) for b in ([300] if quick else [1, 300]) for f in FL if f != "replay-rec"]
     ctx.pmap(_bfs, work)
     # broadcasts while the pairing holds a GATT session (the once-per-session bump of the state number, the roll-over and its key request in flight)
     from vt import explore as _ex
